@@ -278,8 +278,9 @@ pub fn case(tape: &[u32]) -> CaseOutcome {
     if from_program {
         let mut cfg = GenCfg::full();
         cfg.gnode_text = true;
-        let program = make_program(&mut t, &cfg);
         let source = pysrc::gen_source(&mut t);
+        let lazy = t.chance(1, 2);
+        let program = make_program(&mut t, &cfg);
         let file = match load_valid("C14", &program.printed.text) {
             Ok(f) => f,
             Err(o) => return o,
@@ -288,7 +289,6 @@ pub fn case(tape: &[u32]) -> CaseOutcome {
         let index = TreeIndex::new(&tree);
         let mut graph = Graph::new();
         let flag = CountingFlag::new(None);
-        let lazy = t.chance(1, 2);
         match crate::lib_api::execute_into(&file, &mut graph, &tree, &index, &source, &program.gen.globals, &ExecOpts { lazy, debug: None }, &flag) {
             ExecOutcome::Ok => {}
             _ => return CaseOutcome::Discard("generated program did not execute successfully"),
